@@ -229,6 +229,8 @@ class Program:
                     # `if TYPE_CHECKING: ... else: ...` -> run-time branch is the else part
                     if norm(st.test) in ('TYPE_CHECKING', 'typing.TYPE_CHECKING'):
                         handle(st.orelse, toplevel)
+                    elif norm(st.test) in ('not TYPE_CHECKING', 'not typing.TYPE_CHECKING'):
+                        handle(st.body, toplevel)
                     else:
                         handle(st.body, toplevel)
                         handle(st.orelse, toplevel)
